@@ -233,21 +233,22 @@ impl<A: AcceptableMasterList> Bmca<A> {
         // qualified messages
         let announce_messages = self.foreign_master_list.take_qualified_announce_messages();
 
-        // The best of the foreign master messages is our erbest
-        let erbest = Self::find_best_announce_message(announce_messages.map(|message| {
-            BestAnnounceMessage {
+        // All messages that are considered have been removed from the
+        // foreignmasterlist. They are still the most recent thing we know of their
+        // senders though, whether selected as Erbest or not, so put every one of
+        // them back: otherwise the next run would judge the losers by an older,
+        // superseded message.
+        let mut erbest: Option<BestAnnounceMessage> = None;
+        for message in announce_messages {
+            self.reregister_announce_message(&message.header, &message.message, message.age);
+            let candidate = BestAnnounceMessage {
                 header: message.header,
                 message: message.message,
                 age: message.age,
                 identity: self.own_port_identity,
-            }
-        }));
-
-        if let Some(best) = &erbest {
-            // All messages that were considered have been removed from the
-            // foreignmasterlist. However, the one that has been selected as the
-            // Erbest must not be removed, so let's just reregister it.
-            self.reregister_announce_message(&best.header, &best.message, best.age);
+            };
+            // The best of the foreign master messages is our erbest
+            erbest = Self::find_best_announce_message(erbest.into_iter().chain([candidate]));
         }
 
         erbest
